@@ -857,7 +857,13 @@ func unop(i *interpreter, instr *ssa.UnOp, x value) value {
 	}
 	switch instr.Op {
 	case token.ARROW: // receive
-		v, ok := <-x.(chan value)
+		var v value
+		var ok bool
+		select {
+		case v, ok = <-x.(chan value):
+		default:
+			i.path.abort("channel receive would block")
+		}
 		if !ok {
 			v = zero(instr.X.Type().Underlying().(*types.Chan).Elem())
 		}
